@@ -4,6 +4,7 @@ import (
 	"testing"
 
 	"github.com/koron-go/z80/verifharness/eng"
+	"github.com/koron-go/z80/verifharness/stats"
 	"pgregory.net/rapid"
 )
 
@@ -19,4 +20,58 @@ func TestC05Step(t *testing.T) {
 		"port log (direction, port, value); non-trivial = the instruction makes a data or port access; distinct by hash(encoding, pre-state, operands, memory seed)"
 	rapid.Check(t, p.property(false))
 	p.finishClasses()
+}
+
+// TestC05Soup: the access log of every Step of multi-Step programs (a repeating block instruction
+// must re-fetch its two bytes on every repetition; nothing may be cached between Steps).
+func TestC05Soup(t *testing.T) {
+	col := stats.New("C05")
+	col.Sub = "soup"
+	defer finish(t, col)
+	col.Rule = "soup: byte strings of implemented encodings (block repeats, prefix forms and relative jumps favoured) run for up to 64 Steps in lock-step with the reference model, " +
+		"per-Step access logs compared; non-trivial = >= 2 Steps; distinct by hash(code, state)"
+	rig := newLockRig()
+	rapid.Check(t, func(t *rapid.T) {
+		c := genSoup(t, 16, 64)
+		if rapid.IntRange(0, 1).Draw(t, "block-first") == 0 {
+			// start with a repeating block instruction so that several repetitions are certain
+			op := rapid.SampledFrom([]int{0xB0, 0xB1, 0xB2, 0xB3, 0xB8, 0xB9, 0xBA, 0xBB}).Draw(t, "blockop")
+			c.Code = append([]int{0xED, op}, c.Code...)
+			if c.St.B == 0 && c.St.C < 2 {
+				c.St.C = 5
+			}
+			if c.St.B == 1 {
+				c.St.B = 7
+			}
+		}
+		msg, steps, trunc, classes := soupLockstep(rig, &c, map[string]bool{eng.KAccess: true})
+		col.Eval(1)
+		if msg != "" {
+			violation(t, "C05", "soup", c, "reference model's accesses, every Step", msg)
+		}
+		col.LabelN("soup-steps", int64(steps))
+		if trunc {
+			col.Label("soup-truncated")
+		}
+		reps := 0
+		for _, cl := range classes {
+			switch cl {
+			case "LDx", "CPx", "INx", "OUTx":
+				reps++
+			}
+		}
+		if reps >= 2 {
+			col.Label("block-elements>=2")
+		}
+		if steps >= 2 {
+			h := stateHash(&c.St)
+			for _, b := range c.Code {
+				h = stats.Hash(h, uint64(b))
+			}
+			col.Distinct(h)
+			if col.WantSample(h) && len(c.Code) < 30 {
+				col.Sample(h, c)
+			}
+		}
+	})
 }
